@@ -414,8 +414,8 @@ impl Report {
                 let mut j = v.to_json(&cfg);
                 j["section"] = json!(s.name);
                 let _ = std::fs::write(&path, serde_json::to_string_pretty(&j).unwrap());
-                println!("VIOLATION property={} replay={}", cfg.prop, path);
-                println!("  # {} args={:x?} want={} got={} ({})", v.op, v.args, v.want, v.got, v.kind);
+                crate::outln!("VIOLATION property={} replay={}", cfg.prop, path);
+                crate::outln!("  # {} args={:x?} want={} got={} ({})", v.op, v.args, v.want, v.got, v.kind);
             }
         }
         // known findings
@@ -427,7 +427,7 @@ impl Report {
         }
         for f in crate::findings::open_for(cfg.prop) {
             let hits = known_total.get(f.id).copied().unwrap_or(0);
-            println!("KNOWN-FINDING: property={} {} {} ({} hits in this run)", cfg.prop, f.id, f.what, hits);
+            crate::outln!("KNOWN-FINDING: property={} {} {} ({} hits in this run)", cfg.prop, f.id, f.what, hits);
         }
         let evals: u64 = self.sections.iter().map(|s| s.evals).sum();
         let distinct: u64 = self.sections.iter().map(|s| s.distinct).sum();
@@ -475,7 +475,7 @@ impl Report {
         });
         let _ = std::fs::create_dir_all(format!("{}/evidence", verif_dir()));
         std::fs::write(format!("{}/evidence/{}.json", verif_dir(), cfg.prop), serde_json::to_string_pretty(&ev).unwrap()).expect("write evidence");
-        println!(
+        crate::outln!(
             "{} {} seed={} evaluations={} distinct_nontrivial={} violations={} wall={:.1}s",
             cfg.prop,
             cfg.tier.name(),
@@ -486,13 +486,13 @@ impl Report {
             wall
         );
         for s in &self.sections {
-            println!("  [{}] evals={} nontrivial={} distinct={} known={:?} viols={} {:.1}s", s.name, s.evals, s.nontrivial, s.distinct, s.known, s.viols.len(), s.wall_s);
+            crate::outln!("  [{}] evals={} nontrivial={} distinct={} known={:?} viols={} {:.1}s", s.name, s.evals, s.nontrivial, s.distinct, s.known, s.viols.len(), s.wall_s);
         }
         if nviol > 0 {
             1
         } else if !self.inconclusive.is_empty() {
             for i in &self.inconclusive {
-                println!("INCONCLUSIVE: {}", i);
+                crate::outln!("INCONCLUSIVE: {}", i);
             }
             2
         } else {
